@@ -155,7 +155,7 @@ Proof. intros. rewrite firstn_app, firstn_all, Nat.sub_diag. cbn. apply app_nil_
 Lemma skipn_app_exact : forall (b r : bytes), skipn (length b) (b ++ r) = r.
 Proof. intros. rewrite skipn_app, skipn_all, Nat.sub_diag. reflexivity. Qed.
 
-Lemma flat_map_min_len : forall (e : value -> bytes) l,
+Lemma flat_map_min_len : forall {A} (e : A -> bytes) l,
   (forall v, In v l -> (1 <= length (e v))%nat) -> (length l <= length (flat_map e l))%nat.
 Proof.
   induction l; intros H; cbn [flat_map length]; [lia|].
@@ -504,3 +504,282 @@ Section Bounded.
     destruct P as [L B]. split; [discriminate|nia].
   Qed.
 End Bounded.
+
+(* ---------------------------------------------------------------------------------------- *)
+(* every strict prefix of a valid encoding is an error (never a value, never a panic) *)
+
+Lemma prefix_split : forall (p q a b : bytes), p ++ q = a ++ b -> q <> [] ->
+  (exists q', p ++ q' = a /\ q' <> []) \/ (exists p', p = a ++ p' /\ p' ++ q = b).
+Proof.
+  induction p as [|x p IH]; intros q a b H Hq.
+  - destruct a as [|y a].
+    + right. exists []. cbn in *. auto.
+    + left. exists (y :: a). split; [reflexivity|discriminate].
+  - destruct a as [|y a].
+    + right. exists (x :: p). cbn in *. auto.
+    + cbn in H. inversion H; subst.
+      destruct (IH q a b H2 Hq) as [[q' [E N]]|[p' [E1 E2]]].
+      * left. exists q'. split; [cbn; now rewrite E|auto].
+      * right. exists p'. split; [cbn; now rewrite E1|auto].
+Qed.
+
+Section Prefix.
+  Variable odec : string -> bytes -> ores.
+  Variable ochk : string -> bytes -> Z.
+  Hypothesis odec_ext : forall name b rest,
+    odec name b = OOk (length b) -> odec name (b ++ rest) = OOk (length b).
+  Hypothesis odec_prefix : forall name b p q,
+    odec name b = OOk (length b) -> p ++ q = b -> q <> [] -> odec name p = OErr.
+
+  Notation dec := (decode odec ochk).
+  Notation wff := (wf odec ochk).
+
+  Lemma repeat_prefix : forall g env pe,
+    (forall v rest, wff g env v = true -> exists a, dec g env (encode g v ++ rest) = DOk v rest a) ->
+    (forall v p q, wff g env v = true -> p ++ q = encode g v -> q <> [] -> exists a, dec g env p = DErr a) ->
+    forall l p q fuel, forallb (wff g env) l = true -> p ++ q = flat_map (encode g) l -> q <> [] ->
+    exists a, repeat_dec (dec g env) pe fuel (zlen l) p = LErr a.
+  Proof.
+    intros g env pe RT PF. induction l as [|v l IHl]; intros p q fuel Hwf Hpq Hq.
+    - cbn in Hpq. apply app_eq_nil in Hpq. destruct Hpq; congruence.
+    - cbn [forallb] in Hwf. apply andb_prop in Hwf as [Hv Hl].
+      cbn [flat_map] in Hpq. unfold zlen. cbn [length].
+      destruct fuel as [|fuel]; cbn [repeat_dec];
+        (destruct (Z.of_nat (S (length l)) <=? 0) eqn:E; [lia|]); [eauto|].
+      destruct (prefix_split _ _ _ _ Hpq Hq) as [[q' [E1 N]]|[p' [E1 E2]]].
+      + destruct (PF v p q' Hv E1 N) as [a ->]. eauto.
+      + subst p. destruct (RT v p' Hv) as [a1 ->].
+        replace (Z.of_nat (S (length l)) - 1) with (zlen l) by (unfold zlen; lia).
+        fold (repeat_dec (dec g env) pe).
+        destruct (IHl p' q fuel Hl E2 Hq) as [a2 ->]. eauto.
+  Qed.
+
+  Theorem prefix_fails : forall f, fmt_ok f = true -> forall env v p q, wff f env v = true ->
+    p ++ q = encode f v -> q <> [] -> exists a, dec f env p = DErr a.
+  Proof.
+    induction f; intros Hok env v p q Hwf Hpq Hq; destruct v; cbn [wf] in Hwf; try discriminate;
+      cbn [fmt_ok] in Hok; cbn [encode] in Hpq.
+    - (* FUInt *) cbn [decode]. rewrite take_n_short; eauto.
+      pose proof (strict_prefix_length _ _ _ Hpq Hq) as L. now rewrite le_enc_length in L.
+    - (* FSInt *) cbn [decode]. rewrite take_n_short; eauto.
+      pose proof (strict_prefix_length _ _ _ Hpq Hq) as L. now rewrite le_enc_length in L.
+    - (* FBool *)
+      destruct (app_eq_cons_prefix _ _ _ _ Hpq Hq) as [->|[p' [-> Hp']]]; [cbn; eauto|].
+      apply app_eq_nil in Hp'. destruct Hp'; congruence.
+    - (* FVarInt *) cbn [decode].
+      assert (2 ^ bits <= 2 ^ 64) by (apply pow2_le_64; lia).
+      rewrite (varint_prefix n p q) by (auto; lia). eauto.
+    - (* FBytes *) cbn [decode]. rewrite take_n_short; eauto.
+      pose proof (strict_prefix_length _ _ _ Hpq Hq) as L. lia.
+    - (* FVarBytes *) cbn [decode].
+      assert (0 <= zlen b) by (unfold zlen; lia).
+      destruct (prefix_split _ _ _ _ Hpq Hq) as [[q' [E1 N]]|[p' [E1 E2]]].
+      + rewrite (varint_prefix (zlen b) p q') by (auto; lia). eauto.
+      + subst p. rewrite varint_rt by lia.
+        apply andb_prop in Hwf as [Hwf Hc]. apply andb_prop in Hwf as [_ Hs].
+        pose proof (strict_prefix_length _ _ _ E2 Hq) as L.
+        destruct sh as [lim|].
+        * apply andb_prop in Hs as [Hl Hm]. apply negb_true_iff in Hl. rewrite Hl.
+          destruct (makeslice_limit <? zlen b) eqn:E; [lia|].
+          rewrite take_z_short by (unfold zlen; lia). eauto.
+        * rewrite take_z_short by (unfold zlen; lia). eauto.
+    - (* FList *) cbn [decode].
+      assert (0 <= zlen l) by (unfold zlen; lia).
+      apply andb_prop in Hwf as [Hwf Hall]. apply andb_prop in Hwf as [Hlen Hh].
+      apply andb_prop in Hok as [Hmin Hokg].
+      destruct (prefix_split _ _ _ _ Hpq Hq) as [[q' [E1 N]]|[p' [E1 E2]]].
+      + rewrite (varint_prefix (zlen l) p q') by (auto; lia). eauto.
+      + subst p. rewrite varint_rt by lia.
+        destruct (list_header sh (zlen l)) eqn:EH; try discriminate.
+        destruct (repeat_prefix f env (app_cost sh)
+                    (fun v r => roundtrip odec ochk odec_ext odec_prefix f Hokg env v r)
+                    (fun v p0 q0 => IHf Hokg env v p0 q0) l p' q (length p') Hall E2 Hq) as [a1 ->].
+        eauto.
+    - (* FListOf *) cbn [decode].
+      destruct (env_count env path) as [c|] eqn:EC; [|discriminate].
+      apply andb_prop in Hwf as [Hc Hall]. apply andb_prop in Hok as [Hmin Hokg].
+      assert (c = zlen l) by lia. subst c.
+      destruct (repeat_prefix f env (elem_cost sh)
+                  (fun v r => roundtrip odec ochk odec_ext odec_prefix f Hokg env v r)
+                  (fun v p0 q0 => IHf Hokg env v p0 q0) l p q (length p) Hall Hpq Hq) as [a1 ->].
+      eauto.
+    - (* FOpt *) destruct o as [x|].
+      + destruct (app_eq_cons_prefix _ _ _ _ Hpq Hq) as [->|[p' [-> Hp']]]; [cbn; eauto|].
+        cbn [decode]. cbn [Z.eqb]. destruct (IHf Hok env x p' q Hwf Hp' Hq) as [a ->]. eauto.
+      + destruct (app_eq_cons_prefix _ _ _ _ Hpq Hq) as [->|[p' [-> Hp']]]; [cbn; eauto|].
+        apply app_eq_nil in Hp'. destruct Hp'; congruence.
+    - (* FNil *) apply app_eq_nil in Hpq. destruct Hpq; congruence.
+    - (* FField *) destruct fs as [|[n' x] fs]; [discriminate|].
+      apply andb_prop in Hwf as [Hwf Hw2]. apply andb_prop in Hwf as [Hn Hw1].
+      apply andb_prop in Hok as [Hg Hr]. apply String.eqb_eq in Hn. subst n'.
+      cbn [decode].
+      destruct (prefix_split _ _ _ _ Hpq Hq) as [[q' [E1 N]]|[p' [E1 E2]]].
+      + destruct (IHf1 Hg env x p q' Hw1 E1 N) as [a ->]. eauto.
+      + subst p.
+        destruct (roundtrip odec ochk odec_ext odec_prefix f1 Hg env x p' Hw1) as [a1 ->].
+        destruct (IHf2 Hr ((name, x) :: env) (VStruct fs) p' q Hw2 E2 Hq) as [a2 ->]. eauto.
+    - cbn [decode]. eapply IHf; eauto.
+    - cbn [decode]. eapply IHf; eauto.
+    - cbn [decode]. eapply IHf; eauto.
+    - cbn [decode]. eapply IHf; eauto.
+    - cbn [decode]. eapply IHf; eauto.
+    - cbn [decode]. eapply IHf; eauto.
+    - (* FOpaque *) cbn [decode].
+      destruct (odec name b) as [n| |] eqn:E; try discriminate.
+      apply andb_prop in Hwf as [Hn Hz]. apply Nat.eqb_eq in Hn. subst n.
+      rewrite (odec_prefix name b p q E Hpq Hq). eauto.
+  Qed.
+End Prefix.
+
+(* ---------------------------------------------------------------------------------------- *)
+(* writer format vs reader format: `symmetric w r` makes them interchangeable for encoding *)
+
+Lemma opt_eqb_Z : forall a b, opt_eqb Z.eqb a b = true -> a = b.
+Proof. intros [x|] [y|] H; cbn in H; try discriminate; auto. apply Z.eqb_eq in H. now subst. Qed.
+
+Lemma opt_eqb_str : forall a b, opt_eqb String.eqb a b = true -> a = b.
+Proof. intros [x|] [y|] H; cbn in H; try discriminate; auto. apply String.eqb_eq in H. now subst. Qed.
+
+Lemma strs_eqb_eq : forall a b, strs_eqb a b = true -> a = b.
+Proof.
+  induction a; intros [|y b] H; cbn in H; try discriminate; auto.
+  apply andb_prop in H as [H1 H2]. apply String.eqb_eq in H1. subst. f_equal. auto.
+Qed.
+
+Lemma lshape_eqb_eq : forall a b, lshape_eqb a b = true -> a = b.
+Proof.
+  intros [e1 l1|e1 c1] [e2 l2|e2 c2] H; cbn in H; try discriminate;
+    apply andb_prop in H as [H1 H2]; apply Z.eqb_eq in H1; subst.
+  - apply opt_eqb_Z in H2. now subst.
+  - apply Z.eqb_eq in H2. now subst.
+Qed.
+
+Lemma bshape_eqb_eq : forall a b, bshape_eqb a b = true -> a = b.
+Proof. intros [l1|] [l2|] H; cbn in H; try discriminate; auto. apply opt_eqb_Z in H. now subst. Qed.
+
+Lemma fmt_eqb_eq : forall a b, fmt_eqb a b = true -> a = b.
+Proof.
+  induction a; intros b H; destruct b; cbn [fmt_eqb] in H; try discriminate.
+  - apply Nat.eqb_eq in H. now subst.
+  - apply Nat.eqb_eq in H. now subst.
+  - reflexivity.
+  - apply Z.eqb_eq in H. now subst.
+  - apply Nat.eqb_eq in H. now subst.
+  - apply andb_prop in H as [H1 H2]. apply bshape_eqb_eq in H1. apply opt_eqb_str in H2. now subst.
+  - apply andb_prop in H as [H1 H2]. apply lshape_eqb_eq in H1. apply IHa in H2. now subst.
+  - apply andb_prop in H as [H H3]. apply andb_prop in H as [H1 H2].
+    apply strs_eqb_eq in H1. apply lshape_eqb_eq in H2. apply IHa in H3. now subst.
+  - apply IHa in H. now subst.
+  - reflexivity.
+  - apply andb_prop in H as [H H3]. apply andb_prop in H as [H1 H2].
+    apply String.eqb_eq in H1. apply IHa1 in H2. apply IHa2 in H3. now subst.
+  - apply IHa in H. now subst.
+  - apply String.eqb_eq in H. now subst.
+  - apply String.eqb_eq in H. now subst.
+Qed.
+
+Lemma flat_map_ext' : forall {A B} (f g : A -> list B) l, (forall a, f a = g a) -> flat_map f l = flat_map g l.
+Proof. intros A B f g l H. induction l; cbn; [auto|]. now rewrite H, IHl. Qed.
+
+Lemma encode_erase : forall f v, encode (erase f) v = encode f v.
+Proof.
+  induction f; intros v; cbn [erase encode]; auto.
+  - destruct v; auto. f_equal. apply flat_map_ext'. auto.
+  - destruct v; auto. apply flat_map_ext'. auto.
+  - destruct v; auto. destruct o; auto. now rewrite IHf.
+  - destruct v; auto. destruct fs as [|[n x] fs]; auto. now rewrite IHf1, IHf2.
+Qed.
+
+Lemma sym_encode : forall w r v, symmetric w r = true -> encode w v = encode r v.
+Proof.
+  intros w r v H. unfold symmetric in H. apply fmt_eqb_eq in H.
+  rewrite <- (encode_erase w), <- (encode_erase r). now rewrite H.
+Qed.
+
+(* ---------------------------------------------------------------------------------------- *)
+(* the instantiable forms: bytes written by the code described by w, read by the code described by r *)
+
+Section Sym.
+  Variable odec : string -> bytes -> ores.
+  Variable ochk : string -> bytes -> Z.
+  Hypothesis odec_ext : forall name b rest,
+    odec name b = OOk (length b) -> odec name (b ++ rest) = OOk (length b).
+  Hypothesis odec_prefix : forall name b p q,
+    odec name b = OOk (length b) -> p ++ q = b -> q <> [] -> odec name p = OErr.
+
+  Theorem sym_roundtrip : forall w r, symmetric w r = true -> fmt_ok r = true ->
+    forall v rest, wf odec ochk r [] v = true ->
+    exists a, decode odec ochk r [] (encode w v ++ rest) = DOk v rest a.
+  Proof.
+    intros w r S Hok v rest Hwf. rewrite (sym_encode w r v S).
+    exact (roundtrip odec ochk odec_ext odec_prefix r Hok [] v rest Hwf).
+  Qed.
+
+  Theorem sym_prefix_fails : forall w r, symmetric w r = true -> fmt_ok r = true ->
+    forall v p q, wf odec ochk r [] v = true -> p ++ q = encode w v -> q <> [] ->
+    exists a, decode odec ochk r [] p = DErr a.
+  Proof.
+    intros w r S Hok v p q Hwf Hpq Hq. rewrite (sym_encode w r v S) in Hpq.
+    exact (prefix_fails odec ochk odec_ext odec_prefix r Hok [] v p q Hwf Hpq Hq).
+  Qed.
+
+  (* ------------------------------------------------------------------------------------ *)
+  (* Message framing and streams *)
+
+  Theorem msg_roundtrip : forall tbl m rest, wf_msg odec ochk tbl m = true ->
+    exists a, decode_msg odec ochk tbl (encode_msg tbl m ++ rest) = MOk m rest a.
+  Proof.
+    intros tbl [t v] rest H. unfold wf_msg, encode_msg, decode_msg in *. cbn [fst snd] in *.
+    apply andb_prop in H as [Ht H].
+    destruct (lookup_code tbl t) as [f|] eqn:L; [|discriminate].
+    apply andb_prop in H as [Hok Hwf].
+    rewrite <- app_assoc. rewrite varint_rt by lia. rewrite L.
+    destruct (roundtrip odec ochk odec_ext odec_prefix f Hok [] v rest Hwf) as [a ->]. eauto.
+  Qed.
+
+  Theorem msg_prefix_fails : forall tbl m p q, wf_msg odec ochk tbl m = true ->
+    p ++ q = encode_msg tbl m -> q <> [] -> exists a, decode_msg odec ochk tbl p = MErr a.
+  Proof.
+    intros tbl [t v] p q H Hpq Hq. unfold wf_msg, encode_msg, decode_msg in *. cbn [fst snd] in *.
+    apply andb_prop in H as [Ht H].
+    destruct (lookup_code tbl t) as [f|] eqn:L; [|discriminate].
+    apply andb_prop in H as [Hok Hwf].
+    destruct (prefix_split _ _ _ _ Hpq Hq) as [[q' [E1 N]]|[p' [E1 E2]]].
+    - rewrite (varint_prefix t p q') by (auto; lia). eauto.
+    - subst p. rewrite varint_rt by lia. rewrite L.
+      destruct (prefix_fails odec ochk odec_ext odec_prefix f Hok [] v p' q Hwf E2 Hq) as [a ->]. eauto.
+  Qed.
+
+  Lemma encode_msg_nonempty : forall tbl m, (1 <= length (encode_msg tbl m))%nat.
+  Proof.
+    intros. unfold encode_msg. rewrite app_length. pose proof (varint_enc_length (fst m)). lia.
+  Qed.
+
+  Lemma concat_decodes_fuel : forall tbl ms fuel, forallb (wf_msg odec ochk tbl) ms = true ->
+    (length ms <= fuel)%nat ->
+    decode_stream odec ochk tbl fuel (flat_map (encode_msg tbl) ms) = Some ms.
+  Proof.
+    intros tbl. induction ms as [|m ms IH]; intros fuel Hwf Hfuel.
+    - destruct fuel; reflexivity.
+    - cbn [forallb] in Hwf. apply andb_prop in Hwf as [Hm Hms].
+      cbn [flat_map].
+      destruct fuel as [|fuel]; [cbn in Hfuel; lia|].
+      remember (encode_msg tbl m ++ flat_map (encode_msg tbl) ms) as bs eqn:Ebs.
+      destruct bs as [|b0 bs'].
+      { exfalso. pose proof (encode_msg_nonempty tbl m) as L.
+        apply (f_equal (@length Z)) in Ebs. rewrite app_length in Ebs. cbn in Ebs. lia. }
+      cbn [decode_stream]. rewrite Ebs.
+      destruct (msg_roundtrip tbl m (flat_map (encode_msg tbl) ms) Hm) as [a ->].
+      rewrite IH; auto. cbn in Hfuel. lia.
+  Qed.
+
+  (* any concatenation of encodings of well-formed messages, read from one stream by iterating
+     Message.Deserialize, yields the same sequence of messages and consumes the stream exactly *)
+  Theorem concat_decodes : forall tbl ms, forallb (wf_msg odec ochk tbl) ms = true ->
+    let bs := flat_map (encode_msg tbl) ms in
+    decode_stream odec ochk tbl (length bs) bs = Some ms.
+  Proof.
+    intros tbl ms Hwf bs. apply concat_decodes_fuel; auto.
+    apply flat_map_min_len. intros m _. apply encode_msg_nonempty.
+  Qed.
+End Sym.
